@@ -55,7 +55,7 @@ PROPS["C01"] = {
 
 RULES["C02"] = (_SEQ + "tests: runs total (n from 1), runs distribution (n >= 100, lengths at the cut-off boundaries n = 5*2^(k+2)+k-3 +-2 (sweep: every k up to 18, i.e. n up to 5.2*10^6; thorough: k up to 22 and n = 10^7, 10^8), run lengths pinned to k-1,k,k+1), "
                 "longest run of ones / zeros (n >= 128, lengths around 6272 and 750000, blockwise sequences whose per-block longest run is forced to each class edge). "
-                "oracle: run-decomposition reference; longest-run class tables re-derived by exact big-integer DP and rounded to printed precision; |dP|,|dQ| <= 1e-8. "
+                "A third of the lengths are multiples of 8 and are also sent through the byte entry points (RunsTestBytes, RunsDistributionTestBytes, LongestRunOfOnesInABlockTestBytes). oracle: run-decomposition reference; longest-run class tables re-derived by exact big-integer DP and rounded to printed precision; |dP|,|dQ| <= 1e-8. "
                 "non-trivial: >= 3 runs and reference P inside (1e-12,1-1e-12) (runs total: >= 3 runs). distinct: hash of the case JSON.")
 PROPS["C02"] = {
     "level": "exploration",
@@ -186,10 +186,11 @@ PROPS["C10"] = {
     "level": "exploration",
     "quick": shards(5, "TestC10", 120, mode="period", floor=40) + [S("TestC10", 400, mode="single", floor=100)]
              + [S("TestC10", 1, mode="poweron", env={"VERIF_FAST": 1, "VERIF_TARGETS": "one-bad"}, floor=1, weight=4), S("TestC10", 1, mode="poweron", env={"VERIF_FAST": 0, "VERIF_TARGETS": "one-bad"}, floor=1, weight=2),
-                S("TestC10", 1, mode="poweron", env={"VERIF_FAST": 1, "VERIF_TARGETS": "one-bad", "VERIF_PLAN": "pow2-remainder"}, floor=1, weight=4), S("TestC10", 1, mode="factory", env={"VERIF_FAST": 1, "VERIF_TARGETS": "one-bad"}, floor=1, weight=4)],
+                S("TestC10", 1, mode="poweron", env={"VERIF_FAST": 1, "VERIF_TARGETS": "one-bad", "VERIF_PLAN": "pow2-remainder"}, floor=1, weight=4), S("TestC10", 1, mode="factory", env={"VERIF_FAST": 1, "VERIF_TARGETS": "one-bad", "VERIF_PLAN": "pow2-remainder"}, floor=1, weight=4)],
     "thorough": shards(6, "TestC10", 2500, mode="period", floor=600) + [S("TestC10", 5000, mode="single", floor=1000)]
              + [S("TestC10", 10, mode="poweron", env={"VERIF_FAST": f}, floor=3, weight=3, timeout=3400) for f in (0, 1, 1)]
-             + [S("TestC10", 4, mode="factory", env={"VERIF_FAST": f}, floor=2, weight=3, timeout=3400) for f in (0, 1)],
+             + [S("TestC10", 4, mode="factory", env={"VERIF_FAST": f}, floor=2, weight=3, timeout=3400) for f in (0, 1)]
+             + [S("TestC10", 14, mode="poweron", env={"VERIF_FAST": 1, "VERIF_TARGETS": "one-bad", "VERIF_PLAN": "pow2-remainder"}, floor=4, weight=3, timeout=3400) for _ in range(2)],
     "assumptions": ["the reference is the sequential workflow under full reads (its own correctness is C07)"],
 }
 
